@@ -55,7 +55,7 @@ import (
 func init() {
 	core.Register(&core.Monitor{
 		ID:            "C27",
-		Rule:          "PRNG transactions per era (quick 5000, thorough 300000 per era): 1-4 inputs and 1-4 outputs with coin and (Mary+) assets over policies {P1,P2,all-zero} x names {'',a,b}; 0-2 withdrawals; 0-3 certificates of every type the era has (stake reg/dereg/deleg, pool reg for new / already registered / repeated-in-tx pools, pool retire; Conway+: reg, unreg, vote / stake-vote deleg, the three reg+deleg forms, DRep reg / unreg / update), 0-2 proposals and a treasury donation (Conway+), mint / burn of 0-3 assets; outputs balanced under the true formula (1/3), under one of 19 wrong formulas (1/3; among them 'tokens of the spent inputs not counted', all or one asset), or true formula with one term perturbed (1/3: moved by +-1, all / one output asset entry dropped, an asset nobody provides added to an output); plus 400 (thorough 20000) pure payments per era through the full rule list; a case is non-trivial when the transaction decodes; distinct by transaction bytes + ledger-state summary",
+		Rule:          "PRNG transactions per era (quick 5000, thorough 300000 per era): 1-4 inputs and 1-4 outputs with coin and (Mary+) assets over policies {P1,P2,all-zero} x names {'',a,b}; 0-2 withdrawals; 0-3 certificates of every type the era has (stake reg/dereg/deleg, pool reg for new / already registered / repeated-in-tx pools, pool retire; Conway+: reg, unreg, vote / stake-vote deleg, the three reg+deleg forms, DRep reg / unreg / update), 0-2 proposals and a treasury donation (Conway+), mint / burn of 0-3 assets; outputs balanced under the true formula (1/3), under one of 19 wrong formulas (1/3; among them 'tokens of the spent inputs not counted', all or one asset), or true formula with one term perturbed (1/3: moved by +-1, all / one output asset entry dropped, an asset nobody provides added to an output); plus 400 (thorough 20000) pure payments per era through the full rule list; plus the shared-state family (Mary+, 60 / 3000 per era and scenario: honest and conflicting transactions over the same asset in two inputs / input+mint validated in sequences on ONE in-memory state, each verdict compared with a fresh state); every rule call is repeated on the same objects and every second rejected case re-run in other map key orders (lg.EnableChecks); a case is non-trivial when the transaction decodes; distinct by transaction bytes + ledger-state summary",
 		MinNontrivial: 20000,
 		Assumptions: []string{
 			"stated certificate / proposal deposits equal the protocol parameters in every generated case; registration and deregistration of the same credential never share a transaction",
